@@ -6,7 +6,7 @@ hash parameters of the model instantiated by the executable specs in Qx.Crypto.
   reset m <sasl|sasl2> <mech> <user> <pass> <cnonce> <host> <token> -> ok    (a manager; service type is "xmpp")
         mech   SCRAM-SHA-1 | SCRAM-SHA-256 | SCRAM-SHA-512 | SCRAM-SHA3-512 | DIGEST-MD5 | PLAIN | HT-<hash>-NONE
         token  - | <HT mechanism name>/<secret hex>
-  r <challenge>          -> none | some <response>            (QXmppSaslClient::respond)
+  r <challenge>          -> (none | some <response>) v=<0|1>  (QXmppSaslClient::respond, then serverVerified())
   start                  -> <outs> <result>                   (authenticate(): initial response)
   el c <data> | el s - | el s <data> | el f <0|1> | el k | el x
                          -> <A|R|F> <outs> <result>           (handleElement)
@@ -124,7 +124,8 @@ def stepLine (s : DSt) (line : String) : DSt × String :=
     match hexArg ch with
     | some ch =>
       let r := mechRespond s.C md5 s.cr s.mech ch
-      ({ s with mech := r.1 }, match r.2 with | none => "none" | some b => "some " ++ hexOut b)
+      ({ s with mech := r.1 },
+       (match r.2 with | none => "none" | some b => "some " ++ hexOut b) ++ (if mechVerified r.1 then " v=1" else " v=0"))
     | none => (s, "bad-op")
   | ["start"] =>
     let r := mgrStart s.C md5 s.cr s.sasl2 s.kind
